@@ -12,7 +12,7 @@ W-leak        which checker type each allocator uses with leak checking on / off
 """
 from engine import build, fwd, sym, witness, fixtures, flow
 from engine.facts import cls_template, strip_ns, top_term, subterms, tstr, split_qual
-from rules import fwdrules
+from rules import fwdrules, common
 
 LEVEL = 'other'
 CHECKERS = ('detail::object_leak_checker', 'detail::global_leak_checker_impl', 'detail::no_leak_checker')
@@ -173,9 +173,14 @@ def check_checker(run, db):
             n += 1
             inst = '%s [%s]' % (f.display, db.config)
             want = 'operator+=' if f.short == 'on_allocate' else 'operator-='
-            calls = [t for e, t in flow.call_events(f) if t.get('short') == want and 'allocated_' in tstr(t.get('recv'))
-                     and sym.canon(t['args'][0], {0: 'size'}) in ('$size', '(long)$size')]
-            if len(calls) == 1:
+            # the atomic's compound assignment or the read-modify-write it stands for
+            wants = (want, 'fetch_add' if f.short == 'on_allocate' else 'fetch_sub')
+            lv = common.single_assignment_locals(f)
+            upd = [t for e, t in flow.call_events(f) if t.get('short', '').startswith(('operator+=', 'operator-=', 'fetch_', 'store', 'exchange', 'operator=', 'operator++', 'operator--'))
+                   and 'allocated_' in tstr(t.get('recv'))]
+            calls = [t for t in upd if t.get('short') in wants and t.get('args')
+                     and sym.canon(common.expand_locals(t['args'][0], lv), {0: 'size'}) in ('$size', '(long)$size')]
+            if len(calls) == 1 and len(upd) == 1:
                 run.ok('R-LEAKCHK', inst, f.loc, 'atomic allocated_ %s size' % want[-2:])
             else:
                 run.violation('R-LEAKCHK', inst, f.loc, 'global counter is not updated by exactly the size',
